@@ -133,6 +133,16 @@ impl IndexEntry {
     /// The result has no blocks.
     pub(crate) fn metadata_from(source: &source::Entry) -> IndexEntry {
         let mtime = source.mtime();
+        // jiff splits a pre-epoch instant into a non-positive second and a non-positive
+        // subsecond; the index stores floor seconds plus a non-negative fraction.
+        let (mtime_secs, mtime_nanos) = if mtime.subsec_nanosecond() < 0 {
+            (
+                mtime.as_second() - 1,
+                mtime.subsec_nanosecond() + 1_000_000_000,
+            )
+        } else {
+            (mtime.as_second(), mtime.subsec_nanosecond())
+        };
         assert_eq!(
             source.symlink_target().is_some(),
             source.kind() == Kind::Symlink
@@ -142,8 +152,8 @@ impl IndexEntry {
             kind: source.kind(),
             addrs: Vec::new(),
             target: source.symlink_target().map(|t| t.to_owned()),
-            mtime: mtime.as_second(),
-            mtime_nanos: mtime.subsec_nanosecond().try_into().unwrap(),
+            mtime: mtime_secs,
+            mtime_nanos: mtime_nanos.try_into().unwrap(),
             unix_mode: source.unix_mode(),
             owner: source.owner().to_owned(),
         }
